@@ -184,6 +184,7 @@ func verifyFuncOnce(w *World, key string, opts VerifyOpts) (res *FuncResult) {
 	}
 	// ensures
 	post := fr.scope(ret.st, fr.entry)
+	post.paramsAtEntry = true // in a postcondition a parameter's name denotes the argument the caller passed
 	bindResults(post.vars, fn.Signature, ret.results)
 	for i, cl := range ct.Ensures {
 		nm := cl.Name
